@@ -316,7 +316,7 @@ func labelReturn(c *Ctx, t *Terminal) string {
 var inboundInline = []string{"*", "-parseResponse", "-(*SAMLServiceProvider).decryptAssertions", "-(*SAMLServiceProvider).Validate",
 	"-(*SAMLServiceProvider).ValidateDecodedLogoutResponse", "-(*SAMLServiceProvider).ValidateDecodedLogoutRequest"}
 
-var retrieveInline = []string{"*", "-(*SAMLServiceProvider).ValidateEncodedResponse", "-(*SAMLServiceProvider).VerifyAssertionConditions"}
+var retrieveInline = []string{"*", "-(*SAMLServiceProvider).ValidateEncodedResponse"}
 
 // ---------------------------------------------------------------- C05
 
@@ -468,7 +468,10 @@ func ruleC05(c *Ctx) {
 				arg := e.Args[1]
 				// &assertion where assertion := response.Assertions[0]
 				src := ""
-				if c0, ok := t.St.heap[arg.Key()]; ok {
+				if strings.HasPrefix(ap(arg), "&") {
+					// the element itself, by address
+					src = strings.TrimPrefix(ap(arg), "&")
+				} else if c0, ok := t.St.heap[arg.Key()]; ok {
 					src = ap(c0.val)
 				} else {
 					for _, se := range t.stores() {
@@ -665,7 +668,15 @@ func ruleC06(c *Ctx) {
 			}
 			n++
 			wi, ok := t.finalField(t.Vals[0], "WarningInfo")
-			good := ok && strings.HasPrefix(ap(wi), "(*SAMLServiceProvider).VerifyAssertionConditions(SP, ") && strings.HasSuffix(ap(wi), "#0")
+			// the value returned (first result) by the inlined VerifyAssertionConditions on this very path
+			good := false
+			if ok {
+				for _, e := range t.St.events {
+					if e.Kind == EvExit && shortName(e.Callee) == "(*SAMLServiceProvider).VerifyAssertionConditions" && len(e.Res) > 0 && e.Res[0].Key() == wi.Key() {
+						good = true
+					}
+				}
+			}
 			c.check(good, "C06-R4", shortFn(ri.Root), "AssertionInfo.WarningInfo source", c.P.InstrPos(t.Instr), "WarningInfo <- VerifyAssertionConditions(...)#0", "WarningInfo is "+ap(wi))
 		}
 		c.count("C06-R4", n)
